@@ -411,6 +411,9 @@ func typerefChild(seed int64, n int) *childReport {
 	regCT[m0]()
 	regCT[m1]()
 	late := []func(){regCT[m2], regCT[m3], regCT[m4], regCT[m5], regCT[m6], regCT[m7]}
+	// a crowd of further types registers at the same instant (lazy registration from request goroutines)
+	crowd := []func(){regCT[[1]byte], regCT[[2]byte], regCT[[3]byte], regCT[[4]byte], regCT[[5]byte], regCT[[6]byte], regCT[[7]byte], regCT[[8]byte], regCT[[9]byte], regCT[[10]byte], regCT[[11]byte], regCT[[12]byte], regCT[[13]byte], regCT[[14]byte], regCT[[15]byte], regCT[[16]byte], regCT[[17]byte], regCT[[18]byte], regCT[[19]byte], regCT[[20]byte], regCT[[21]byte], regCT[[22]byte], regCT[[23]byte], regCT[[24]byte], regCT[[25]byte], regCT[[26]byte], regCT[[27]byte], regCT[[28]byte], regCT[[29]byte], regCT[[30]byte], regCT[[31]byte], regCT[[32]byte], regCT[[33]byte], regCT[[34]byte], regCT[[35]byte], regCT[[36]byte], regCT[[37]byte], regCT[[38]byte], regCT[[39]byte], regCT[[40]byte], regCT[[41]byte], regCT[[42]byte], regCT[[43]byte], regCT[[44]byte], regCT[[45]byte], regCT[[46]byte], regCT[[47]byte], regCT[[48]byte], regCT[[49]byte], regCT[[50]byte], regCT[[51]byte], regCT[[52]byte], regCT[[53]byte], regCT[[54]byte], regCT[[55]byte], regCT[[56]byte], regCT[[57]byte], regCT[[58]byte], regCT[[59]byte], regCT[[60]byte], regCT[[61]byte], regCT[[62]byte], regCT[[63]byte], regCT[[64]byte], regCT[[65]byte], regCT[[66]byte], regCT[[67]byte], regCT[[68]byte], regCT[[69]byte], regCT[[70]byte], regCT[[71]byte], regCT[[72]byte], regCT[[73]byte], regCT[[74]byte], regCT[[75]byte], regCT[[76]byte], regCT[[77]byte], regCT[[78]byte], regCT[[79]byte], regCT[[80]byte], regCT[[81]byte], regCT[[82]byte], regCT[[83]byte], regCT[[84]byte], regCT[[85]byte], regCT[[86]byte], regCT[[87]byte], regCT[[88]byte], regCT[[89]byte], regCT[[90]byte], regCT[[91]byte], regCT[[92]byte], regCT[[93]byte], regCT[[94]byte], regCT[[95]byte], regCT[[96]byte]}
+	crowdUse := []func(int) string{useCT[[1]byte], useCT[[2]byte], useCT[[3]byte], useCT[[4]byte], useCT[[5]byte], useCT[[6]byte], useCT[[7]byte], useCT[[8]byte], useCT[[9]byte], useCT[[10]byte], useCT[[11]byte], useCT[[12]byte], useCT[[13]byte], useCT[[14]byte], useCT[[15]byte], useCT[[16]byte], useCT[[17]byte], useCT[[18]byte], useCT[[19]byte], useCT[[20]byte], useCT[[21]byte], useCT[[22]byte], useCT[[23]byte], useCT[[24]byte], useCT[[25]byte], useCT[[26]byte], useCT[[27]byte], useCT[[28]byte], useCT[[29]byte], useCT[[30]byte], useCT[[31]byte], useCT[[32]byte], useCT[[33]byte], useCT[[34]byte], useCT[[35]byte], useCT[[36]byte], useCT[[37]byte], useCT[[38]byte], useCT[[39]byte], useCT[[40]byte], useCT[[41]byte], useCT[[42]byte], useCT[[43]byte], useCT[[44]byte], useCT[[45]byte], useCT[[46]byte], useCT[[47]byte], useCT[[48]byte], useCT[[49]byte], useCT[[50]byte], useCT[[51]byte], useCT[[52]byte], useCT[[53]byte], useCT[[54]byte], useCT[[55]byte], useCT[[56]byte], useCT[[57]byte], useCT[[58]byte], useCT[[59]byte], useCT[[60]byte], useCT[[61]byte], useCT[[62]byte], useCT[[63]byte], useCT[[64]byte], useCT[[65]byte], useCT[[66]byte], useCT[[67]byte], useCT[[68]byte], useCT[[69]byte], useCT[[70]byte], useCT[[71]byte], useCT[[72]byte], useCT[[73]byte], useCT[[74]byte], useCT[[75]byte], useCT[[76]byte], useCT[[77]byte], useCT[[78]byte], useCT[[79]byte], useCT[[80]byte], useCT[[81]byte], useCT[[82]byte], useCT[[83]byte], useCT[[84]byte], useCT[[85]byte], useCT[[86]byte], useCT[[87]byte], useCT[[88]byte], useCT[[89]byte], useCT[[90]byte], useCT[[91]byte], useCT[[92]byte], useCT[[93]byte], useCT[[94]byte], useCT[[95]byte], useCT[[96]byte]}
 	var wg sync.WaitGroup
 	var mu sync.Mutex
 	var used int64
@@ -443,7 +446,30 @@ func typerefChild(seed int64, n int) *childReport {
 			f()
 		}(i, f)
 	}
+	start := make(chan struct{})
+	for _, f := range crowd {
+		wg.Add(1)
+		go func(f func()) {
+			defer wg.Done()
+			<-start
+			f()
+		}(f)
+	}
+	close(start)
 	wg.Wait()
+	for i, use := range crowdUse {
+		d := func() (d string) {
+			defer func() {
+				if p := recover(); p != nil {
+					d = fmt.Sprint("panic: ", p)
+				}
+			}()
+			return use(1000 + i)
+		}()
+		if d != "" {
+			rep.add(mismatch{What: "custom-typeref-registered-concurrently-unusable", Detail: fmt.Sprintf("crowd type %d of %d: %s", i, len(crowdUse), d)})
+		}
+	}
 	// the late registrations must all be usable now
 	for i, d := range []string{useCT[m2](1), useCT[m3](2), useCT[m4](3), useCT[m5](4), useCT[m6](5), useCT[m7](6)} {
 		if d != "" {
@@ -452,7 +478,30 @@ func typerefChild(seed int64, n int) *childReport {
 	}
 	rep.Requests, rep.Compared = int(used)+6, int(used)+6
 	rep.Shapes["use-while-registering"] = int(used)
-	rep.Shapes["registered-concurrently"] = len(late)
+	rep.Shapes["registered-concurrently"] = len(late) + len(crowd)
+	return rep
+}
+
+// ---------------------------------------------------------------------------------------------
+// child: requests that all get one caller-owned map of extra headers
+
+func sharedHeadersChild(gen string, seed int64, n int) *childReport {
+	rep := &childReport{Gen: gen, Workload: "client-shared-headers", Shapes: map[string]int{}}
+	for round, g := range []int{1, 8, 32} {
+		var problems []string
+		var compared int
+		if gen == "v2" {
+			problems, compared = c17g2.SharedExtraHeaders(seed+int64(round), n, g)
+		} else {
+			problems, compared = c17g1.SharedExtraHeaders(seed+int64(round), n, g)
+		}
+		rep.Requests += compared
+		rep.Compared += compared
+		rep.Shapes[fmt.Sprintf("shared-header-map|%d-goroutines", g)] = compared
+		for _, p := range problems {
+			rep.add(mismatch{What: "request-differs-from-lone-request", Kind: "shared-extra-headers", Goroutines: g, Detail: p})
+		}
+	}
 	return rep
 }
 
@@ -538,6 +587,8 @@ func child(args []string) {
 		rep = typerefChild(seed, n)
 	case "lazymap-cold":
 		rep = lazyChild(gen, seed, n)
+	case "client-shared-headers":
+		rep = sharedHeadersChild(gen, seed, n)
 	}
 	b, _ := json.Marshal(rep)
 	fmt.Println("C17-CHILD " + string(b))
@@ -556,7 +607,7 @@ func main() {
 		return
 	}
 	run := ev.Start("C17")
-	run.Rule("execution = (generation, workload, GOMAXPROCS, repetition) in a child process under the race detector. http workloads: a seeded list of requests (15 request kinds x 7 outcomes, unique token in key, parameter, header and body; one handler with three filters, one shared restli.Client with a tunnelling threshold) executed serially, then with 8, 32 and 64 goroutines with injected yields/sleeps; per request the invocation(s) seen by resource code, pre-request filter events, status, error / id / location headers, body (stack trace removed), client result and error must equal the serial execution and contain no other request's token; shared error objects must be unchanged. http-inproc: the same over an in-process transport (no socket, hence no synchronisation other than the library's own between requests). http-cold: fresh handlers whose very first requests arrive concurrently (48 requests, 8-48 goroutines, in process), the serial execution follows on the same handler. http-late-*: the handler serves while the Server it was taken from keeps registering finders and actions on resources the handler already knows. Every pre-request filter event must name the resource path chain of its own request (two sibling leaves at nesting depth 4 included). lazymap-cold: the lazy map that holds the D2 client's per-service state, 2-16 callers released together on a fresh key: one load, one value for all. d2: 16 goroutines resolve while the library's update loop consumes announcements (a permanent host keeps every snapshot resolvable). typeref-registry (v2): 16 goroutines marshal/unmarshal/hash registered custom typerefs while 6 more types register. Any race report whose access stacks pass through go-restli code is a violation, deduplicated by the innermost library functions. distinct = (generation, workload, request kind|outcome) compared + executions")
+	run.Rule("execution = (generation, workload, GOMAXPROCS, repetition) in a child process under the race detector. http workloads: a seeded list of requests (15 request kinds x 7 outcomes, unique token in key, parameter, header and body; one handler with three filters, one shared restli.Client with a tunnelling threshold) executed serially, then with 8, 32 and 64 goroutines with injected yields/sleeps; per request the invocation(s) seen by resource code, pre-request filter events, status, error / id / location headers, body (stack trace removed), client result and error must equal the serial execution and contain no other request's token; shared error objects must be unchanged. http-inproc: the same over an in-process transport (no socket, hence no synchronisation other than the library's own between requests). http-cold: fresh handlers whose very first requests arrive concurrently (48 requests, 8-48 goroutines, in process), the serial execution follows on the same handler. http-late-*: the handler serves while the Server it was taken from keeps registering finders and actions on resources the handler already knows. Every pre-request filter event must name the resource path chain of its own request (two sibling leaves at nesting depth 4 included). client-shared-headers: requests of five kinds (one of them tunnelled) built by 1, 8 and 32 goroutines whose ExtraRequestHeaders callbacks all return one caller-owned map: each must go out as a lone request of its kind would, and the map must come back untouched. lazymap-cold: the lazy map that holds the D2 client's per-service state, 2-16 callers released together on a fresh key: one load, one value for all. d2: 16 goroutines resolve while the library's update loop consumes announcements (a permanent host keeps every snapshot resolvable). typeref-registry (v2): 16 goroutines marshal/unmarshal/hash registered custom typerefs while 6 more types register. Any race report whose access stacks pass through go-restli code is a violation, deduplicated by the innermost library functions. distinct = (generation, workload, request kind|outcome) compared + executions")
 	run.Assume("only accesses that executed under the detector are covered; the scheduler chooses the interleavings (GOMAXPROCS 2/4/16, random yields)")
 	self, _ := os.Executable()
 	dir := filepath.Join(os.Getenv("VERIF_WORK_DIR"), "race-c17")
@@ -571,7 +622,7 @@ func main() {
 	var jobs []job
 	for _, gen := range []string{"v2", "root"} {
 		jobs = append(jobs, job{gen, "http-bare", run.Pick(300, 1500)}, job{gen, "http-prefixed", run.Pick(150, 800)}, job{gen, "d2", run.Pick(3000, 30000)},
-			job{gen, "http-inproc", run.Pick(300, 1500)}, job{gen, "http-cold", run.Pick(480, 4800)}, job{gen, "http-late-bare", run.Pick(200, 1000)}, job{gen, "http-late-inproc", run.Pick(200, 1000)}, job{gen, "lazymap-cold", run.Pick(3000, 30000)})
+			job{gen, "http-inproc", run.Pick(300, 1500)}, job{gen, "http-cold", run.Pick(480, 4800)}, job{gen, "http-late-bare", run.Pick(200, 1000)}, job{gen, "http-late-inproc", run.Pick(200, 1000)}, job{gen, "lazymap-cold", run.Pick(3000, 30000)}, job{gen, "client-shared-headers", run.Pick(400, 4000)})
 	}
 	jobs = append(jobs, job{"v2", "typeref-registry", run.Pick(2000, 20000)})
 	reps := run.Pick(2, 6)
